@@ -107,6 +107,20 @@ fn test(c: &Case, st: &mut Stats) -> TestResult {
         declared,
         built.len()
     );
+    // the receiving side has usually seen other traffic before: one case in four first hands the
+    // parser (on this thread) damaged copies of the message - a flipped bit, a cut tail - whose
+    // rejection must leave nothing behind that affects the intact message
+    {
+        let d = digest(&built);
+        if d % 4 == 0 && built.len() > 24 {
+            let mut bad = built.clone();
+            let at = 8 + (d >> 8) as usize % (built.len() - 8);
+            bad[at] ^= 1 << ((d >> 4) % 8);
+            let _ = guard(|| Message::from_bytes(&bad).map(|m| m.iter_attributes().count()));
+            let cut = &built[..built.len() - 4 * (1 + (d >> 16) as usize % 2)];
+            let _ = guard(|| Message::from_bytes(cut).is_ok());
+        }
+    }
     let msg = guard(|| Message::from_bytes(&built))
         .map_err(|p| Fail::new("c03-panic", format!("parsing the built message panicked: {}", p)))?
         .map_err(|e| {
